@@ -151,6 +151,13 @@ def apply_op(lst, op, validate):
     # the same operations with an index-like OBJECT in place of the int
     elif name == "pop_idx":
         return lst.pop(IdxObj(op[1]))
+    # pop takes an INDEX, nothing that merely works as a subscript
+    elif name == "pop_slice":
+        return lst.pop(slice(op[1], op[2]))
+    elif name == "pop_other":
+        return lst.pop(op[1])
+    elif name == "insert_other":
+        lst.insert(op[1], v(op[2]))
     elif name == "insert_idx":
         x = v(op[2])
         lst.insert(IdxObj(op[1]), x)
@@ -382,6 +389,9 @@ OP = st.one_of(
     st.tuples(st.just("iadd"), ITEMS),
     st.tuples(st.just("extend_self")), st.tuples(st.just("iadd_self")),
     st.tuples(st.just("pop_idx"), st.integers(-4, 4)), st.tuples(st.just("insert_idx"), st.integers(-4, 4), ITEM),
+    st.tuples(st.just("pop_slice"), st.one_of(st.none(), st.integers(-2, 2)), st.one_of(st.none(), st.integers(-2, 3))),
+    st.tuples(st.just("pop_other"), st.sampled_from([1.5, "0", None, 0.0, True])),
+    st.tuples(st.just("insert_other"), st.sampled_from([1.5, "0", None, True]), ITEM),
     st.tuples(st.just("imul_idx"), st.integers(-1, 2)), st.tuples(st.just("setitem_idx"), st.integers(-4, 4), ITEM),
     st.tuples(st.just("delitem_idx"), st.integers(-4, 4)),
     st.tuples(st.just("setslice_self"), st.tuples(OPT_IDX, OPT_IDX, st.sampled_from([None, None, 1, 2, -1]))),
